@@ -33,25 +33,33 @@ bool ops_archive(Ctx& c, const json& s, int idx, bool& handled) {
 		const json& L = s["listing"]; if (c.clm->GetCount() != L.size()) { Proto::mismatch(site, "count", where("count " + std::to_string(c.clm->GetCount()))); return false; }
 		for (std::size_t i = 0; i < L.size(); ++i) { if (c.clm->GetName(i) != Scen::str(L[i]["name"])) { Proto::mismatch(site, "name", where("member " + std::to_string(i) + " is " + c.clm->GetName(i))); return false; } if (c.clm->GetSize(i) != L[i]["size"].get<uint32_t>()) { Proto::mismatch(site, "size", where("member " + std::to_string(i))); return false; } }
 		return true; }
-	if (op == "robust_vol") { std::string path = ROOT + "/t.vol"; auto img = raw(s["image"]); Scen::spit(path, img);
-		auto log = [&](const json& e) { LOGF << e.dump() << "\n"; LOGF.flush(); };
-		log({{"e", "Reset"}, {"image", s["image"]}, {"scenario", CURSCN}});
+	// ---- C05, pipeline V recorder: a (corrupted) archive image, a call script on one long-lived object and on a fresh object per call ----
+	if (op == "robust_vol" || op == "robust_clm") { const bool vol = op == "robust_vol"; std::string path = ROOT + (vol ? "/t.vol" : "/t.clm"); auto img = raw(s["image"]); Scen::spit(path, img);
+		logev({{"e", "Reset"}, {"kind", vol ? "vol" : "clm"}, {"image", s["image"]}, {"scenario", CURSCN}});
 		auto capped = [](std::vector<unsigned char> b) { if (b.size() > 4096) b.resize(4096); return json(b); };
+		auto openIt = [&]() -> std::unique_ptr<Archive::ArchiveFile> { if (vol) return std::make_unique<Archive::VolFile>(path); return std::make_unique<Archive::ClmFile>(path); };
 		// one call on a given object -> (ok, val)
-		auto doCall = [&](Archive::VolFile& v, const std::string& call, std::size_t i) -> std::pair<bool, json> { try {
+		auto doCall = [&](Archive::ArchiveFile& v, const std::string& call, std::size_t i) -> std::pair<bool, json> { try {
 				if (call == "GetCount") return {true, (long)v.GetCount()}; if (call == "GetName") { std::string n = v.GetName(i); return {true, json(std::vector<unsigned char>(n.begin(), n.end()))}; }
 				if (call == "GetSize") return {true, std::to_string(v.GetSize(i))};
 				if (call == "OpenStream") { auto st = v.OpenStream(i); return {true, capped(drain(*st))}; }
 				if (call == "Extract") { std::string d = ROOT + "/ex.bin"; fs::remove(d); v.ExtractFile(i, d); return {true, capped(Scen::slurp(d))}; }
 			} catch (const std::exception&) { return {false, 0}; } return {false, 0}; };
-		std::unique_ptr<Archive::VolFile> longLived; bool opened = true; try { longLived = std::make_unique<Archive::VolFile>(path); } catch (const std::exception&) { opened = false; }
-		log({{"e", "Call"}, {"obj", "long"}, {"call", "Open"}, {"i", 0}, {"key", "Open"}, {"ok", opened}, {"val", 0}});
-		{ bool again = true; try { Archive::VolFile f(path); } catch (const std::exception&) { again = false; } log({{"e", "Call"}, {"obj", "fresh"}, {"call", "Open"}, {"i", 0}, {"key", "Open"}, {"ok", again}, {"val", 0}}); }
+		std::unique_ptr<Archive::ArchiveFile> longLived; bool opened = true; try { longLived = openIt(); } catch (const std::exception&) { opened = false; }
+		logev({{"e", "Call"}, {"obj", "long"}, {"call", "Open"}, {"i", 0}, {"key", "Open"}, {"ok", opened}, {"val", 0}});
+		{ bool again = true; try { auto f = openIt(); } catch (const std::exception&) { again = false; } logev({{"e", "Call"}, {"obj", "fresh"}, {"call", "Open"}, {"i", 0}, {"key", "Open"}, {"ok", again}, {"val", 0}}); }
 		if (!opened) return true;
 		for (auto& c : s["calls"]) { const std::string call = c["call"]; std::size_t i = c["i"]; const std::string key = call + ":" + std::to_string(i);
-			Proto::sanitize(Proto::g_detail, sizeof Proto::g_detail, where(key));
-			auto a = doCall(*longLived, call, i); log({{"e", "Call"}, {"obj", "long"}, {"call", call}, {"i", i}, {"key", key}, {"ok", a.first}, {"val", a.second}});
-			Archive::VolFile fresh(path); auto b = doCall(fresh, call, i); log({{"e", "Call"}, {"obj", "fresh"}, {"call", call}, {"i", i}, {"key", key}, {"ok", b.first}, {"val", b.second}}); }
+			Proto::sanitize(Proto::g_site, sizeof Proto::g_site, site + "/" + call); Proto::sanitize(Proto::g_detail, sizeof Proto::g_detail, where(key));
+			auto a = doCall(*longLived, call, i); logev({{"e", "Call"}, {"obj", "long"}, {"call", call}, {"i", i}, {"key", key}, {"ok", a.first}, {"val", a.second}});
+			auto fresh = openIt(); auto b = doCall(*fresh, call, i); logev({{"e", "Call"}, {"obj", "fresh"}, {"call", call}, {"i", i}, {"key", key}, {"ok", b.first}, {"val", b.second}}); }
+		return true; }
+	// ---- C05: arbitrary bytes offered as a WAV to CLM creation end in an error or an archive (never a hang or a memory fault) ----
+	if (op == "robust_wav") { std::string in = ROOT + "/in.wav", out = ROOT + "/out.clm"; Scen::spit(in, raw(s["image"]));
+		bool refused = throws([&] { Archive::ClmFile::CreateArchive(out, {in}); });
+		if (!refused) { // an archive was produced: it must at least be a file the library itself can open and list
+			bool bad = throws([&] { Archive::ClmFile c2(out); if (c2.GetCount() != 1) throw std::runtime_error("count"); auto st = c2.OpenStream(0); drain(*st); });
+			if (bad) { Proto::mismatch(site, "accepted-but-unreadable", where("")); return false; } }
 		return true; }
 	if (op == "vol_limit" || op == "clm_limit") { const bool vol = op == "vol_limit"; const bool wantRefuse = s["expect"] == "refuse"; static const bool thorough = getenv("VERIF_TIER") && std::string(getenv("VERIF_TIER")) == "thorough";
 		if (!wantRefuse && !thorough) return true;                                   // must-accept neighbours really copy gigabytes: thorough tier only
